@@ -1142,13 +1142,9 @@ func (this *rolzCodec2) Forward(src, dst []byte) (uint, uint, error) {
 		buf := src[startChunk:endChunk]
 		srcIdx = 0
 
-		// First literals
-		mm := 8
+		// First literals (the last chunk can be shorter)
+		mm := min(8, sizeChunk)
 		re.setContext(_ROLZ_LITERAL_CTX, 0)
-
-		if startChunk >= srcEnd {
-			mm = srcEnd - startChunk
-		}
 
 		for j := 0; j < mm; j++ {
 			re.encode9Bits((_ROLZ_LITERAL_FLAG << 8) | int(buf[srcIdx]))
@@ -1260,13 +1256,27 @@ func (this *rolzCodec2) Inverse(src, dst []byte) (uint, uint, error) {
 	rd, _ := newRolzDecoder(9, this.logPosChecks, src, &srcIdx)
 	clear(this.counters)
 
+	// The encoder splits all but the last 4 bytes into chunks and emits these
+	// 4 bytes as literals after the last chunk: use the same chunk bounds
+	lastLiterals := 0
+
+	if bsVersion >= 4 {
+		if dstEnd < 4 {
+			return 0, 0, errors.New("ROLZX codec inverse transform failed: invalid data")
+		}
+
+		lastLiterals = 4
+	}
+
+	chunksEnd := dstEnd - lastLiterals
+
 	// Main loop
-	for startChunk < dstEnd {
+	for startChunk < chunksEnd {
 		clear(this.matches)
 		endChunk := startChunk + sizeChunk
 
-		if endChunk > dstEnd {
-			endChunk = dstEnd
+		if endChunk > chunksEnd {
+			endChunk = chunksEnd
 			sizeChunk = endChunk - startChunk
 		}
 
@@ -1282,10 +1292,7 @@ func (this *rolzCodec2) Inverse(src, dst []byte) (uint, uint, error) {
 		}
 
 		rd.setContext(_ROLZ_LITERAL_CTX, 0)
-
-		if startChunk >= dstEnd {
-			mm = dstEnd - startChunk
-		}
+		mm = min(mm, sizeChunk)
 
 		for j := 0; j < mm; j++ {
 			val := rd.decode9Bits()
@@ -1342,9 +1349,24 @@ func (this *rolzCodec2) Inverse(src, dst []byte) (uint, uint, error) {
 		startChunk = endChunk
 	}
 
+	dstIdx += (startChunk - sizeChunk)
+
+	// Last literals
+	for i := 0; i < lastLiterals; i++ {
+		rd.setContext(_ROLZ_LITERAL_CTX, dst[dstIdx-1])
+		val := rd.decode9Bits()
+
+		// Sanity check
+		if val>>8 == _ROLZ_MATCH_FLAG {
+			return uint(srcIdx), uint(dstIdx), errors.New("ROLZX codec inverse transform failed: invalid data")
+		}
+
+		dst[dstIdx] = byte(val)
+		dstIdx++
+	}
+
 	rd.dispose()
 	var err error
-	dstIdx += (startChunk - sizeChunk)
 
 	if srcIdx != len(src) {
 		err = errors.New("ROLZX codec inverse transform failed: invalid data")
